@@ -43,20 +43,19 @@ Proof.
 Qed.
 
 Lemma ladder_windows : forall meth site c r,
-  err_ok Windows (c_err c) = true -> known_unwrapped Windows meth = false ->
+  err_ok Windows (c_err c) = true ->
   demanded Windows meth site c = Some r -> method_outcome Windows meth site c = r.
 Proof.
-  intros meth site c r He Hk Hd.
-  unfold demanded, recovery, contract, nosuch_failure, method_outcome, inner, known_unwrapped in *.
-  rewrite Hk.
+  intros meth site c r He Hd.
+  unfold demanded, recovery, contract, nosuch_failure, method_outcome, inner in *.
   destruct (g_win_partial meth), (g_win_fallback meth site); case_cond c.
 Qed.
 
 Theorem ladder_model : forall p meth site c r,
-  err_ok p (c_err c) = true -> known_unwrapped p meth = false ->
+  err_ok p (c_err c) = true ->
   demanded p meth site c = Some r -> method_outcome p meth site c = r.
 Proof.
-  intros p meth site c r He Hk Hd. destruct p.
+  intros p meth site c r He Hd. destruct p.
   - apply ladder_plain; auto.
   - apply ladder_plain; auto.
   - apply ladder_netbsd; auto.
@@ -66,14 +65,16 @@ Proof.
   - apply ladder_windows; auto.
 Qed.
 
-(* the undecorated Windows ppid(): a permission failure of ppid_map() leaves as the bare error *)
-Theorem ppid_unwrapped_refuted :
+(* the code before fix a2d103c (undecorated Windows ppid()): a permission failure of ppid_map()
+   left as the bare error; the present model gives AccessDenied there *)
+Theorem ppid_unwrapped_legacy_refuted :
   exists c, err_ok Windows (c_err c) = true /\ demanded Windows "ppid" "ppid_map" c = Some RDenied
-            /\ method_outcome Windows "ppid" "ppid_map" c = RRaw.
+            /\ method_outcome_pre_a2d103c Windows "ppid" "ppid_map" c = RRaw
+            /\ method_outcome Windows "ppid" "ppid_map" c = RDenied.
 Proof. exists (Build_cond WACCESS Alive false). vm_compute. auto. Qed.
 
 Example ladder_model_nontrivial :
-  err_ok SunOS EIO = true /\ known_unwrapped SunOS "nice_get" = false /\
+  err_ok SunOS EIO = true /\
   demanded SunOS "nice_get" "proc_basic_info" (Build_cond EIO Alive true) = Some RDenied.
 Proof. vm_compute. auto. Qed.
 
@@ -84,11 +85,10 @@ Lemma ladder_tables_model : forallb block_model_ok ladder_blocks = true.
 Proof. vm_compute. reflexivity. Qed.
 
 Theorem ladder_contract : forall b, In b ladder_blocks ->
-  known_unwrapped (l_plat b) (l_meth b) = false ->
   Forall2 (fun c g => gout_ok (demanded (l_plat b) (l_meth b) (l_site b) c) g = true) (conds (l_plat b)) (l_outs b).
 Proof.
-  intros b Hin Hk. pose proof (proj1 (forallb_forall _ _) ladder_tables_spec b Hin) as H.
-  unfold block_spec_ok in H. rewrite Hk in H. rewrite orb_false_l in H. apply forallb2_Forall2 in H. exact H.
+  intros b Hin. pose proof (proj1 (forallb_forall _ _) ladder_tables_spec b Hin) as H.
+  unfold block_spec_ok in H. apply forallb2_Forall2 in H. exact H.
 Qed.
 
 Theorem ladder_tables_equal_model : forall b, In b ladder_blocks ->
@@ -106,15 +106,11 @@ Example ladder_tables_nontrivial :
   forallb (fun p => existsb (fun b => plat_eqb (l_plat b) p) ladder_blocks) all_plats = true.
 Proof. vm_compute. auto. Qed.
 
-Theorem ppid_unwrapped_in_tables :
-  exists b, In b ladder_blocks /\ l_plat b = Windows /\ l_meth b = "ppid"%string /\
-    forallb2 (fun c g => gout_ok (demanded (l_plat b) (l_meth b) (l_site b) c) g) (conds (l_plat b)) (l_outs b) = false.
-Proof.
-  destruct (find (fun b => plat_eqb (l_plat b) Windows && String.eqb (l_meth b) "ppid") ladder_blocks) as [b|] eqn:E;
-    [| vm_compute in E; discriminate].
-  exists b. pose proof (find_some _ _ E) as [Hin Hb].
-  split; [exact Hin|]. revert Hb. vm_compute in E. injection E as <-. vm_compute. auto.
-Qed.
+(* the formerly excluded block is there (the theorem above is not vacuous about it) *)
+Example ppid_block_present :
+  existsb (fun b => plat_eqb (l_plat b) Windows && String.eqb (l_meth b) "ppid" && String.eqb (l_site b) "ppid_map"
+                    && existsb fired (l_outs b)) ladder_blocks = true.
+Proof. vm_compute. reflexivity. Qed.
 
 (* --- slot maps *)
 Lemma smaps_ok : forallb smap_bijective slot_maps && forallb smap_native_ok slot_maps && smaps_complete slot_maps = true.
@@ -148,20 +144,18 @@ Proof. vm_compute. reflexivity. Qed.
 
 Theorem methods_use_documented_slots : forall u d, In u usage_rows ->
   doc_layout (u_plat u) (u_meth u) (u_variant u) = Some d ->
-  fields_ok u d = true /\ (known_gids_type (u_plat u) (u_meth u) = false -> type_ok u d = true).
+  fields_ok u d = true /\ type_ok u d = true.
 Proof.
   intros u d Hin Hd. pose proof usage_ok as H. apply andb_true_iff in H as [H _].
   pose proof (proj1 (forallb_forall _ _) H u Hin) as Hu. unfold row_ok in Hu. rewrite Hd in Hu.
-  apply andb_true_iff in Hu as [Hu _]. apply andb_true_iff in Hu as [Hf Ht]. split; [exact Hf|].
-  intro Hk. rewrite Hk in Ht. rewrite orb_false_r in Ht. exact Ht.
+  apply andb_true_iff in Hu as [Hu _]. apply andb_true_iff in Hu as [Hf Ht]. split; assumption.
 Qed.
 
-Theorem methods_depend_on_documented_slot : forall u, In u usage_rows ->
-  known_terminal (u_plat u) (u_meth u) = false -> deps_ok u = true.
+Theorem methods_depend_on_documented_slot : forall u, In u usage_rows -> deps_ok u = true.
 Proof.
-  intros u Hin Hk. pose proof usage_ok as H. apply andb_true_iff in H as [H _].
+  intros u Hin. pose proof usage_ok as H. apply andb_true_iff in H as [H _].
   pose proof (proj1 (forallb_forall _ _) H u Hin) as Hu. unfold row_ok in Hu.
-  apply andb_true_iff in Hu as [_ Hd]. rewrite Hk in Hd. rewrite orb_false_r in Hd. exact Hd.
+  apply andb_true_iff in Hu as [_ Hd]. exact Hd.
 Qed.
 
 Theorem usage_rows_complete : forall p m v, In (p, m, v) doc_keys -> exists u, find_urow p m v usage_rows = Some u.
@@ -174,36 +168,12 @@ Qed.
 Example doc_keys_nontrivial : (100 <=? Z.of_nat (List.length doc_keys)) = true.
 Proof. vm_compute. reflexivity. Qed.
 
-Definition gids_type_bad (u : urow) : bool :=
-  String.eqb (u_meth u) "gids" &&
-  match doc_layout (u_plat u) (u_meth u) (u_variant u) with Some d => fields_ok u d && negb (type_ok u d) | None => false end.
-Theorem gids_type_refuted : forall p, In p [MacOS; SunOS; AIX] ->
-  exists u, In u usage_rows /\ u_plat u = p /\ u_meth u = "gids"%string /\ u_type u = "puids"%string /\ gids_type_bad u = true.
-Proof.
-  intros p Hp.
-  assert (H : forallb (fun p => match find (fun u => plat_eqb (u_plat u) p && gids_type_bad u && String.eqb (u_type u) "puids") usage_rows with
-                                | Some _ => true | None => false end) [MacOS; SunOS; AIX] = true) by (vm_compute; reflexivity).
-  pose proof (proj1 (forallb_forall _ _) H p Hp) as H1. cbv beta in H1.
-  destruct (find (fun u => plat_eqb (u_plat u) p && gids_type_bad u && String.eqb (u_type u) "puids") usage_rows) as [u|] eqn:E;
-    [|discriminate].
-  apply find_some in E as [Hin Hb]. apply andb_true_iff in Hb as [Hb Ht]. apply andb_true_iff in Hb as [Hb1 Hb2].
-  exists u. repeat split; auto.
-  - apply plat_eqb_eq; exact Hb1.
-  - unfold gids_type_bad in Hb2. apply andb_true_iff in Hb2 as [Hm _]. apply String.eqb_eq in Hm. exact Hm.
-  - apply String.eqb_eq in Ht. exact Ht.
-Qed.
-
-Theorem sunos_terminal_refuted :
-  exists u, In u usage_rows /\ u_plat u = SunOS /\ u_meth u = "terminal"%string /\ deps_ok u = false.
-Proof.
-  destruct (find (fun u => plat_eqb (u_plat u) SunOS && String.eqb (u_meth u) "terminal" && negb (deps_ok u)) usage_rows)
-    as [u|] eqn:E; [| vm_compute in E; discriminate].
-  apply find_some in E as [Hin Hb]. apply andb_true_iff in Hb as [Hb Hd]. apply andb_true_iff in Hb as [Hp Hm].
-  exists u. repeat split; auto.
-  - apply plat_eqb_eq; exact Hp.
-  - apply String.eqb_eq in Hm; exact Hm.
-  - apply negb_true_iff in Hd; exact Hd.
-Qed.
+(* the formerly excluded rows are there: gids() on the three platforms, terminal() on Solaris *)
+Example gids_rows_present :
+  forallb (fun p => match find_urow p "gids" "" usage_rows with Some u => String.eqb (u_type u) "pgids" | None => false end)
+          [MacOS; SunOS; AIX] = true
+  /\ (match find_urow SunOS "terminal" "" usage_rows with Some u => deps_ok u | None => false end) = true.
+Proof. vm_compute. auto. Qed.
 
 (* --- names *)
 Lemma names_tables_ok : forallb names_ok names_rows && names_complete names_rows = true.
